@@ -42,13 +42,25 @@ def render(desc, sd, idx, k, dt, req, tmax, interval, policy):
     r = gen.rng_for(sd, "C04r", idx, k)
     all_systems = r.random() < 0.6
     rd = gen.Rendering(r, sys_draw=(gen.rand_sys if all_systems else gen.mild_sys))
-    form = r.choice(["ctor", "dict"])
+    form = r.choice(["ctor", "dict", "ctor+file", "dict+file"])
     usys = rd.sys_draw(r)           # script level = output units system
-    if form == "ctor":
+    if form.startswith("ctor"):
         system = gen.render_system(desc, rd)
     else:
         d = gen.system_dict(desc, rd, parent_sys=usys)
         system = st.rdsystem_from_dict(d, parent_units_system=st.UnitsSystem(**si.sys_dict(usys)))
+    if form.endswith("+file"):
+        # the same description after a save / load cycle is still the same physical system
+        import os, tempfile
+        from vf.common import SCRATCH
+        os.makedirs(SCRATCH, exist_ok=True)
+        fd, path = tempfile.mkstemp(prefix="c04-", suffix=".json", dir=SCRATCH)
+        os.close(fd)
+        try:
+            st.save_rdsystem(system, path)
+            system = st.load_rdsystem(path)
+        finally:
+            os.remove(path)
 
     def tq(x):
         f = r.choice(["bare", "str", "uv"])
@@ -185,7 +197,9 @@ def run_case(case):
             except Exception as e:
                 bad.append({"what": "gillespie run raised on a valid rendering", "rendering": k, "error": "%s: %s" % (type(e).__name__, e), **ctx})
         cnt("renderings")
-        cnt("form_" + info["form"])
+        cnt("form_" + info["form"].split("+")[0])
+        if "+file" in info["form"]:
+            cnt("renderings_through_save_load")
         # --- absolute oracle ---
         scale_x = float(np.abs(state).max()) + 1e-300
         if not np.all(np.abs(obs["state"] - state) <= REL * scale_x):
